@@ -347,7 +347,25 @@ def discharge(path, goal, ob, timeout_ms=None, want_smt=False):
         else:
             ob.status = "unknown"
             ob.detail = "z3: %s" % s.reason_unknown()
-            if USE_CVC5_FALLBACK:
+            # unknown is usually a nonlinear / quantified query that is sensitive to the seed and to
+            # load: retry on fresh solvers with other seeds and a longer budget before giving up
+            asserts = list(s.assertions())
+            for k, tmo in ((11, 20000), (23, 40000)):
+                s2 = z3.Solver()
+                s2.set("timeout", tmo)
+                s2.set("random_seed", k)
+                s2.add(*asserts)
+                r2 = s2.check()
+                if r2 == z3.unsat:
+                    ob.status = "discharged"
+                    ob.detail = "z3 (retry with seed %d)" % k
+                    break
+                if r2 == z3.sat:
+                    ob.status = "refuted"
+                    ob.model = model_to_dict(s2.model())
+                    ob.detail = "z3 (retry with seed %d)" % k
+                    break
+            if ob.status == "unknown" and USE_CVC5_FALLBACK:
                 r2 = cvc5_check(s.sexpr())
                 if r2 == "unsat":
                     ob.status = "discharged"
@@ -364,7 +382,7 @@ def discharge(path, goal, ob, timeout_ms=None, want_smt=False):
     return ob
 
 
-def cvc5_check(smt2_text, timeout_s=20):
+def cvc5_check(smt2_text, timeout_s=60):
     """Independent back end: feed the SMT-LIB text z3 printed to /usr/bin/cvc5."""
     import subprocess, tempfile, os
 
